@@ -29,8 +29,8 @@ What is EXPLORED (part b, ctx.explored): the real `decode` of EVERY registered d
     gcd not in {1, R, C} + small + seed-rotated coprime and dividing pairs (quick); Y-only errors of every weight 1..6,
     all weight-<=2 errors within one boundary (quick: on the small sizes and a seed-rotated half of the gcd-table sizes, 40 sampled elsewhere), `several defects on one boundary` (boundary_subset_errors: subsets of
     sizes 3..6 and stride patterns), the rim / corner errors, random spread weights.
-  Quick tier, lattices with more than 100 qubits: the Lean evaluation of the monitor is made on every 4th accepted output
-  and every rejected one (the Python evaluation on all).
+  Lattices with more than 100 qubits: the Lean evaluation of the monitor is made on every 4th (quick) / 2nd (thorough)
+  accepted output and every rejected one (the Python evaluation on all).
   Failing-input search: a correspondence break of c02_smwpm (graph / corners / path / recovery of an SMWPM decoder) is
   followed by a sweep of the real decoder over the recorded size, its transpose and the shape grid (search_smwpm).
 Known finding D2: PlanarCMWPMDecoder(max_iterations=0) — reported with key 'PlanarCMWPMDecoder.max_iterations=0'.
@@ -255,17 +255,17 @@ def defect_syndromes(ctx, m, max_pairs):
 
 # ------------------------------------------------------------------------------------------ lattice geometry classes
 
-def size_grid(ctx, lo, hi, step=1, n_extra=2, squares=1):
+def size_grid(ctx, lo, hi, step=1, n_extra=2, squares=1, all_thorough=True):
     """(rows, cols) with lo <= rows, cols <= hi covering the four SHAPE classes tall / wide x same / opposite parity
-    of rows and cols (plus squares). thorough: all of them; quick: the smallest of each class + `n_extra` seed-rotated
-    further members of each class + `squares` seed-rotated squares"""
+    of rows and cols (plus squares). thorough (unless all_thorough=False): all of them; otherwise: the smallest of each
+    class + `n_extra` seed-rotated further members of each class + `squares` seed-rotated squares"""
     classes = {}
     for r in range(lo, hi + 1, step):
         for c in range(lo, hi + 1, step):
             if r != c:
                 classes.setdefault(('tall' if r > c else 'wide', 'same' if (r - c) % 2 == 0 else 'opp'), []).append((r, c))
     sq = [(r, r) for r in range(lo, hi + 1, step)]
-    if not ctx.quick():
+    if not ctx.quick() and all_thorough:
         return sorted(set(sum(classes.values(), []) + sq))
     out = []
     for key in sorted(classes):
@@ -534,11 +534,11 @@ class Acc:
 
     def push(self, spec, s, r, verdict):
         key = tuple(spec)
-        if self.ctx.quick() and verdict and len(r) > 2 * LEAN_ALL_N:
-            # quick tier, large lattices (the look-up decoder's sizes): the Lean evaluation of the monitor is made on
-            # every LEAN_EVERY-th accepted output and on every rejected one (the Python evaluation on all)
+        if verdict and len(r) > 2 * LEAN_ALL_N:
+            # large lattices (the look-up decoder's sizes): the Lean evaluation of the monitor is made on every
+            # LEAN_EVERY-th (quick) / 2nd (thorough) accepted output and on every rejected one (the Python one on all)
             self.skip[key] = self.skip.get(key, 0) + 1
-            if self.skip[key] % LEAN_EVERY:
+            if self.skip[key] % (LEAN_EVERY if self.ctx.quick() else 2):
                 return
         b = self.batches.setdefault(key, [])
         b.append((bits(s), bits(r), verdict))
@@ -990,10 +990,10 @@ def planar_y_cases(ctx, spec, table, all_w2=True):
     code, S, _ = code_of(spec)
     n = S.shape[1] // 2
     cases, exh = error_cases(ctx, spec, yonly=True, exhaustive_rank=9 if q else 12, n_random=(12 if q else 20),
-                             singles=not q)
+                             singles=(not q and n <= 100))
     if exh:
         return cases, True
-    extra = boundary_subset_errors(ctx, spec, 'Y', all_upto=2, cap3=((16 if table else 6) if q else 40),
+    extra = boundary_subset_errors(ctx, spec, 'Y', all_upto=2, cap3=((16 if table else 6) if q else 30),
                                    n_more=((3 if table else 2) if q else 6))
     if q and not all_w2:  # quick: all weight-<=2 rim errors on the small sizes and a seed-rotated half of the table class
         w2 = [c for c in extra if c[1] == 'rim-w2']
@@ -1003,8 +1003,8 @@ def planar_y_cases(ctx, spec, table, all_w2=True):
         for _ in range((2 if q else 6)):
             if w <= n:
                 extra.append((random_error(ctx.rng, n, w, True), 'w%d' % w))
-    if q:
-        for qb in ctx.rng.sample(range(n), min(n, 12)):
+    if q or n > 100:  # weight 1: the rim (above) + sampled interior qubits; thorough, n <= 100: all (error_cases)
+        for qb in ctx.rng.sample(range(n), min(n, 12 if q else 60)):
             e = np.zeros(2 * n, dtype=int); e[qb] = 1; e[n + qb] = 1
             extra.append((e, 'w1'))
     seen = set(bits(e) for e, _, _ in cases)
@@ -1089,19 +1089,20 @@ def run_lattice_grid(ctx, acc, rec):
         spec = ('planar', R, C)
         ctx.count('grid_size', 'planar:{}x{}'.format(R, C))
         cases = with_syndromes(spec, localised_errors(spec))
-        for e, s, tag in thin(ctx, cases, 30, 120):
+        for e, s, tag in thin(ctx, cases, 30, 60):
             planar_mwpm_case(ctx, acc, rec, spec, e, s, False)
         for i, dspec in enumerate([D('PlanarCMWPM')] + ctx.rng.sample(cm, 1 if q else 2)):
-            for e, s, tag in thin(ctx, cases, 10, 30, keep=(() if (q or i) else ('rim-single',))):
+            for e, s, tag in thin(ctx, cases, 10, 15, keep=(() if (q or i) else ('rim-single',))):
                 cmwpm_case(ctx, acc, rec, spec, dspec, e, s, False)
     for (R, C) in size_grid(ctx, 2, 8, n_extra=1 if q else 0):
         spec = ('toric', R, C)
         ctx.count('grid_size', 'toric:{}x{}'.format(R, C))
-        for e, s, tag in thin(ctx, with_syndromes(spec, localised_errors(spec)), 30, 100):
+        for e, s, tag in thin(ctx, with_syndromes(spec, localised_errors(spec)), 30, 50):
             toric_mwpm_case(ctx, acc, rec, spec, e, s, False)
     # symmetry-matching decoders: the context decides the graph (finite bias: any Pauli; infinite bias: Y-only)
-    for name, fam, sizes in (('RotatedPlanarSMWPM', 'rplanar', size_grid(ctx, 3, 8, n_extra=1)),
-                             ('RotatedToricSMWPM', 'rtoric', size_grid(ctx, 2, 8, step=2, n_extra=1))):
+    for name, fam, sizes in (('RotatedPlanarSMWPM', 'rplanar', size_grid(ctx, 3, 8, n_extra=1 if q else 4, squares=1 if q else 2,
+                                                                          all_thorough=False)),
+                             ('RotatedToricSMWPM', 'rtoric', size_grid(ctx, 2, 8, step=2, n_extra=1 if q else 0))):
         for (R, C) in sizes:
             spec = (fam, R, C)
             ctx.count('grid_size', '{}:{}x{}'.format(fam, R, C))
@@ -1130,7 +1131,7 @@ def run_lattice_grid(ctx, acc, rec):
         for spec in specs:
             cases = with_syndromes(spec, localised_errors(spec))
             for dspec in (D(name, chi=2), D(name, chi=4, mode='a')):
-                for e, s, tag in ctx.rng.sample(cases, min(len(cases), 2 if q else 12)):
+                for e, s, tag in ctx.rng.sample(cases, min(len(cases), 2 if q else 6)):
                     evaluate(ctx, acc, spec, dspec, ctx.rng.choice(EMS_ANY), ctx.rng.choice(PS), e, s)
 
 
